@@ -85,6 +85,27 @@ def chainModel (m : MState) : Prop := ∀ a f, formulaAt m a = some f → (targe
 def maxAddrLen (m : MState) : Nat := m.cells.foldl (fun n p => max n p.1.length) 0
 def maxFormulaLen (m : MState) : Nat := m.cells.foldl (fun n p => max n p.2.formulaLen) 0
 
+/-! ### one Evaluator object used for several evaluations -/
+
+/-- the state an `Evaluator` carries from one `evaluate` call to the next: the model it mutates and its
+    in-progress list `_evaluating` -/
+structure EvState where
+  st : MState
+  evaluating : List Addr := []
+
+/-- `evaluator.evaluate(a)` on an evaluator in state `e` (a fresh context, i.e. an empty memo, per call) -/
+def evaluateOn (sem : Sem) (fuel : Nat) (e : EvState) (a : Addr) : EvState × Res :=
+  let (c, r) := evalCell mutStore sem fuel { st := e.st, evaluating := e.evaluating, memo := [] } a
+  ({ st := c.st, evaluating := c.evaluating }, r)
+
+/-- a history of evaluations on ONE evaluator -/
+def runHist (sem : Sem) (fuel : Nat) : EvState → List Addr → EvState × List Res
+  | e, [] => (e, [])
+  | e, a :: rest =>
+    let (e1, r) := evaluateOn sem fuel e a
+    let (e2, rs) := runHist sem fuel e1 rest
+    (e2, r :: rs)
+
 /-- executable versions for the driver -/
 def strictModelB (m : MState) : Bool :=
   m.cells.all fun p => match p.2.formula with | some f => strict f | none => true
